@@ -460,12 +460,16 @@ static void lock_required(const char *what)
                 VIOL(P_C16, "C16: %s callback invoked with lock depth %d (must be exactly 1)", what, I.depth);
 }
 
+int w_noread_value;     /* value io_read returns for "no byte" when refuse_read does not say otherwise */
+
 static int io_read(char *ch)
 {
         lock_required("io read");
         L.reads_attempted++;
+        /* refuse_read: 1 = "no byte" is signalled by 0; 2 = by -1; 3 = by 2 (cat.h: only 1 means a byte was read); sweeps take the value from CAT_SWEEP_NOREAD */
+        int nobyte = W.refuse_read == 2 ? -1 : W.refuse_read == 3 ? 2 : w_noread_value;
         if (w_feed) {
-                if (w_feed_pos >= w_feed_n) { L.reads_refused++; return 0; }
+                if (w_feed_pos >= w_feed_n) { L.reads_refused++; if (W.scribble) *ch = 'A'; return nobyte; }
                 uint8_t b = w_feed[w_feed_pos++];
                 *ch = (char)b;
                 L.reads_delivered++;
@@ -476,10 +480,10 @@ static int io_read(char *ch)
         }
         struct genopt opts[GEN_MAXOPT];
         int n = gen_menu(&I.S->gen, opts);
-        if (n == 0) { L.reads_refused++; if (W.scribble) *ch = '\n'; return 0; }
+        if (n == 0) { L.reads_refused++; if (W.scribble) *ch = '\n'; return nobyte; }
         int c;
         if (W.refuse_read) c = mcx_choose(n + 1); else c = mcx_choose(n);
-        if (c == n) { L.reads_refused++; if (W.scribble) *ch = '\n'; return 0; }
+        if (c == n) { L.reads_refused++; if (W.scribble) *ch = '\n'; return nobyte; }
         uint8_t b = opts[c].byte;
         I.S->gen = opts[c].next;
         *ch = (char)b;
